@@ -1103,7 +1103,8 @@ theorem singleVia_ok {c : Config α} {g : List α}
     ∃ fres tsp,
       runVertexOriented c.fwd.inst source (some target) fs = .ok fres ∧
       backtrack source target fres.final.sol (fres.final.solSize + 1) = .ok tsp ∧
-      (((∃ e, runVertexOriented (c.rev g).inst target (some source) rs = .error e) ∧
+      (((∃ e, runVertexOriented (c.rev g).inst target (some source) rs = .error e ∧
+            e.stopsQuery = false) ∧
           r = { trees := [fres.final.sol], routes := [tsp].take k,
                 iterations := fres.final.iters }) ∨
        ∃ rres sol it,
@@ -1121,9 +1122,12 @@ theorem singleVia_ok {c : Config α} {g : List α}
     · rename_i e hrres
       split at h
       · cases h
-      · rename_i tsp htsp
-        cases h
-        exact ⟨fres, tsp, hfres, htsp, Or.inl ⟨⟨e, hrres⟩, rfl⟩⟩
+      · rename_i hstop
+        split at h
+        · cases h
+        · rename_i tsp htsp
+          cases h
+          exact ⟨fres, tsp, hfres, htsp, Or.inl ⟨⟨e, hrres, by simpa using hstop⟩, rfl⟩⟩
     · rename_i rres hrres
       simp only [List.length_singleton, bne_self_eq_false, Bool.false_eq_true, if_false] at h
       split at h
@@ -1287,6 +1291,7 @@ theorem singleVia_error {c : Config α} {g : List α} (hf : c.fwd.AdjConsistent)
     {term : KspTerm} {source target k : Nat} (hts : target ≠ source) {fs rs pops : List Nat}
     {e : ErrKind} (h : singleVia c g sim term source target k fs rs pops = .error e) :
     runVertexOriented c.fwd.inst source (some target) fs = .error e ∨
+    (runVertexOriented (c.rev g).inst target (some source) rs = .error e ∧ e.stopsQuery = true) ∨
     e = .scheduleExhausted ∨ e = .badSchedule ∨ (∃ a b, sim a b = .error e) := by
   unfold singleVia at h
   simp only at h
@@ -1297,8 +1302,13 @@ theorem singleVia_error {c : Config α} {g : List α} (hf : c.fwd.AdjConsistent)
       SearchTree.runVertexOriented_route (c.fwd.inst_wf hf) source target fs fres hts hfres
     obtain ⟨tsp, _, htsp⟩ := SearchTree.backtrack_ok hinvF (t := target) (Or.inr hent)
     split at h
-    · rw [htsp] at h
-      cases h
+    · rename_i e' hrres
+      split at h
+      · rename_i hstop
+        cases h
+        exact Or.inr (Or.inl ⟨hrres, hstop⟩)
+      · rw [htsp] at h
+        cases h
     · rename_i rres hrres
       have T := trees_of_runs c g hf hr hts hfres hrres
       simp only [List.length_singleton, bne_self_eq_false, Bool.false_eq_true, if_false] at h
@@ -1307,203 +1317,650 @@ theorem singleVia_error {c : Config α} {g : List α} (hf : c.fwd.AdjConsistent)
       split at h
       · rename_i k' hk'
         cases h
-        exact Or.inr (svLoop_error T _ _ _ _ _ (fun p hp => mem_interQueue hp) hk')
+        exact Or.inr (Or.inr (svLoop_error T _ _ _ _ _ (fun p hp => mem_interQueue hp) hk'))
       · cases h
 
-/-! ### Yen's algorithm: what does hold -/
+/-! ### Yen's algorithm (as repaired) -/
 
 section yen
-variable {cf : Config α} {sim : List Nat → List Nat → Except ErrKind Bool} {term : KspTerm}
-  {target k : Nat}
 
-/-- a spur turn only appends to `accepted` -/
-theorem yenSpur_accepted {prev : List (Branch α)} {st st' : YenState α} {i : Nat}
-    (h : yenSpur cf sim target prev st i = .ok st') : ∃ ext, st'.accepted = st.accepted ++ ext := by
+/-! #### small facts -/
+
+theorem GWalk.split {edges : List (EdgeRec α)} :
+    ∀ {es fs : List Nat} {u v : Nat}, GWalk edges u (es ++ fs) v →
+      ∃ w, GWalk edges u es w ∧ GWalk edges w fs v
+  | [], _, u, v, h => ⟨u, rfl, h⟩
+  | e :: es, _, u, v, h => by
+    obtain ⟨er, h1, h2, h3⟩ := h
+    obtain ⟨w, h4, h5⟩ := GWalk.split h3
+    exact ⟨w, ⟨er, h1, h2, h4⟩, h5⟩
+
+/-- a walk ends where its last edge arrives -/
+theorem GWalk.last_dst {edges : List (EdgeRec α)} :
+    ∀ {es : List Nat} {u v : Nat}, GWalk edges u es v → ∀ e er, es.getLast? = some e →
+      edges[e]? = some er → v = er.dst
+  | [], _, _, _, e, er, hl, _ => by simp at hl
+  | [x], u, v, h, e, er, hl, he => by
+    obtain ⟨er', h1, _, h3⟩ := h
+    simp only [List.getLast?_singleton, Option.some.injEq] at hl
+    subst hl
+    rw [h1] at he; cases he
+    exact h3.symm
+  | x :: y :: es, u, v, h, e, er, hl, he => by
+    obtain ⟨er', _, _, h3⟩ := h
+    exact GWalk.last_dst h3 e er (by simpa using hl) he
+
+/-- a non-empty walk leaves from the source of its first edge -/
+theorem GWalk.head_src {edges : List (EdgeRec α)} {e : Nat} {es : List Nat} {u v : Nat}
+    (h : GWalk edges u (e :: es) v) : ∃ er, edges[e]? = some er ∧ er.src = u := by
+  obtain ⟨er, h1, h2, _⟩ := h
+  exact ⟨er, h1, h2⟩
+
+theorem GWalk.edges_exist {edges : List (EdgeRec α)} :
+    ∀ {es : List Nat} {u v : Nat}, GWalk edges u es v → ∀ e ∈ es, ∃ er, edges[e]? = some er
+  | [], _, _, _, e, he => by simp at he
+  | x :: xs, _, _, h, e, he => by
+    obtain ⟨er, h1, _, h3⟩ := h
+    rcases List.mem_cons.1 he with rfl | he
+    · exact ⟨er, h1⟩
+    · exact GWalk.edges_exist h3 e he
+
+theorem yenDissimilar_true_iff (sim : List Nat → List Nat → Except ErrKind Bool)
+    (cand : List (Branch α)) (acc : List (List (Branch α))) :
+    yenDissimilar sim cand acc = .ok true ↔
+      ∀ a ∈ acc, sim (a.map (·.edge)) (cand.map (·.edge)) = .ok false := by
+  induction acc with
+  | nil => simp [yenDissimilar]
+  | cons t rest ih =>
+    simp only [yenDissimilar, List.mem_cons, forall_eq_or_imp]
+    cases hs : sim (t.map (·.edge)) (cand.map (·.edge)) with
+    | error k => simp
+    | ok x => cases x <;> simp [ih]
+
+theorem yenDissimilar_error {sim : List Nat → List Nat → Except ErrKind Bool}
+    {cand : List (Branch α)} {e : ErrKind} :
+    ∀ {acc : List (List (Branch α))}, yenDissimilar sim cand acc = .error e →
+      ∃ a b, sim a b = .error e
+  | [], h => by cases h
+  | t :: rest, h => by
+    unfold yenDissimilar at h
+    split at h
+    · rename_i k hk; cases h; exact ⟨_, _, hk⟩
+    · cases h
+    · exact yenDissimilar_error h
+
+theorem yenBetter_cases (best : Option (List (Branch α) × α)) (cand : List (Branch α)) (cost : α) :
+    (∃ x, yenBetter best cand cost = some (cand, x)) ∨ (yenBetter best cand cost = best ∧ best ≠ none) := by
+  unfold yenBetter
+  cases best with
+  | none => exact Or.inl ⟨cost, rfl⟩
+  | some p =>
+    obtain ⟨bp, bc⟩ := p
+    simp only
+    split
+    · exact Or.inl ⟨cost, rfl⟩
+    · exact Or.inr ⟨rfl, by simp⟩
+
+/-- the cut configuration differs from the forward configuration in its frontier model only -/
+theorem cutCfg_adj (c : Config α) (cut : List Nat) (h : c.fwd.AdjConsistent) :
+    (cutCfg c cut).fwd.AdjConsistent := h
+
+/-- an edge accepted by the cut configuration's frontier model is not a cut edge -/
+theorem not_cut_of_valid (c : Config α) (cut : List Nat) {e : Nat} {st : List α} {le : Option Nat}
+    (h : (cutCfg c cut).inst.valid e st le = .ok true) : e ∉ cut := by
+  simp only [Config.inst, cutCfg] at h
+  split at h
+  · cases h
+  · unfold frontierValid at h
+    split at h
+    · cases h
+    · cases h
+    · rename_i hv
+      simp only [FrontierM.valid, Option.some.injEq, Bool.not_eq_eq_eq_not, Bool.not_true] at hv
+      intro hmem
+      have : cut.contains e = true := by simpa using hmem
+      rw [this] at hv; cases hv
+
+/-! #### one spur turn, inverted -/
+
+variable {c : Config α} {sim : List Nat → List Nat → Except ErrKind Bool} {target : Nat}
+
+/-- the cost the code sums for a candidate -/
+def candCost (cand : List (Branch α)) : α := sumList (cand.map (fun b => b.access + b.traversal))
+
+/-- a successful spur turn: one more underlying search, the next schedule consumed, and either no
+change of the best candidate or a candidate that passed every test -/
+theorem yenSpur_ok {prev : List (Branch α)} {accepted : List (List (Branch α))} {st st' : YenState α}
+    {i : Nat} (h : yenSpur c sim target prev accepted st i = .ok st') :
+    st'.iterations = st.iterations + 1 ∧ st'.scheds = st.scheds.tail ∧
+    (st'.best = st.best ∨
+     ∃ spurEt er res spurPath spurRoute,
+      (prev.take (i + 1)).getLast? = some spurEt ∧ c.edges[spurEt.edge]? = some er ∧
+      runVertexOriented (cutCfg c (yenCut accepted (prev.take (i + 1)) i)).inst er.dst (some target)
+        (st.scheds.headD []) = .ok res ∧
+      res.route = some spurPath ∧
+      reorient c.fwd (prev.take (i + 1)) spurPath.reverse = .ok spurRoute ∧
+      routeContainsLoop c.fwd (prev.take (i + 1) ++ spurRoute) = .ok false ∧
+      routePermitted c.fwd (prev.take (i + 1) ++ spurRoute) (initialState c.fwd.feats) none = true ∧
+      yenDissimilar sim (prev.take (i + 1) ++ spurRoute) accepted = .ok true ∧
+      st'.best = yenBetter st.best (prev.take (i + 1) ++ spurRoute)
+        (candCost (prev.take (i + 1) ++ spurRoute))) := by
   unfold yenSpur at h
   simp only at h
   split at h
   · cases h
-  · split at h
+  · rename_i spurEt hlast
+    split at h
     · cases h
-    · split at h
-      · cases h
-      · split at h
+    · rename_i er her
+      split at h
+      · rename_i k hk
+        split at h
         · cases h
-        · split at h
-          · cases h
-          · rename_i best' _
-            cases h
-            cases best' with
-            | none => exact ⟨[], by simp⟩
-            | some p => exact ⟨[p.1], rfl⟩
+        · cases h; exact ⟨rfl, rfl, Or.inl rfl⟩
+      · rename_i res hres
+        split at h
+        · cases h
+        · rename_i spurPath hroute
+          split at h
+          · cases h; exact ⟨rfl, rfl, Or.inl rfl⟩
+          · rename_i spurRoute hre
+            split at h
+            · cases h
+            · cases h; exact ⟨rfl, rfl, Or.inl rfl⟩
+            · rename_i hloop
+              split at h
+              · cases h; exact ⟨rfl, rfl, Or.inl rfl⟩
+              · rename_i hperm
+                split at h
+                · cases h
+                · cases h; exact ⟨rfl, rfl, Or.inl rfl⟩
+                · rename_i hdis
+                  cases h
+                  refine ⟨rfl, rfl, Or.inr ⟨spurEt, er, res, spurPath, spurRoute, hlast, her, hres,
+                    hroute, hre, hloop, by simpa using hperm, hdis, rfl⟩⟩
 
-theorem yenFor_accepted {prev : List (Branch α)} :
-    ∀ {is : List Nat} {st st' : YenState α}, yenFor cf sim target prev is st = .ok st' →
-      ∃ ext, st'.accepted = st.accepted ++ ext
-  | [], st, st', h => by cases h; exact ⟨[], by simp⟩
-  | i :: is, st, st', h => by
+/-! #### what an accepted route is -/
+
+/-- every accepted route is a contiguous walk origin ⇝ destination in graph orientation none of
+whose edges leaves the destination -/
+structure YenGood (c : Config α) (source target : Nat) (p : List (Branch α)) : Prop where
+  walk : GWalk c.edges source (p.map (·.edge)) target
+  src_ne : ∀ b ∈ p, ∀ er, c.edges[b.edge]? = some er → er.src ≠ target
+
+/-- every accepted alternative, relative to the routes accepted before it -/
+structure YenAlt (c : Config α) (sim : List Nat → List Nat → Except ErrKind Bool)
+    (source target : Nat) (accepted : List (List (Branch α))) (cand : List (Branch α)) : Prop where
+  good : YenGood c source target cand
+  /-- it passed `route_contains_loop` -/
+  loopfree : routeContainsLoop c.fwd cand = .ok false
+  /-- it passed `route_is_permitted` -/
+  permitted : PermittedFrom c.fwd (initialState c.fwd.feats) none cand
+  /-- it is dissimilar to every route accepted before it -/
+  dissimilar : ∀ a ∈ accepted, sim (a.map (·.edge)) (cand.map (·.edge)) = .ok false
+  /-- its edge sequence differs from that of every route accepted before it -/
+  fresh : ∀ a ∈ accepted, a.map (·.edge) ≠ cand.map (·.edge)
+  /-- it is a root path of an accepted route followed by a forward re-accumulation -/
+  shape : ∃ prev ∈ accepted, ∃ i spurRoute, cand = prev.take (i + 1) ++ spurRoute ∧
+    Reaccumulated c.fwd (lastEdge (prev.take (i + 1))) (lastState c.fwd (prev.take (i + 1))) spurRoute
+
+/-- **the candidate of a spur turn that passed every test is a proper alternative** -/
+theorem spur_candidate {source : Nat} (hf : c.fwd.AdjConsistent)
+    {prev : List (Branch α)} {accepted : List (List (Branch α))}
+    (hacc : ∀ p ∈ accepted, YenGood c source target p) (hprev : prev ∈ accepted)
+    {i : Nat} (hi : i + 2 < prev.length) {sched : List Nat}
+    {spurEt : Branch α} {er : EdgeRec α} {res : SearchResult α} {spurPath spurRoute : List (Branch α)}
+    (hlast : (prev.take (i + 1)).getLast? = some spurEt) (her : c.edges[spurEt.edge]? = some er)
+    (hres : runVertexOriented (cutCfg c (yenCut accepted (prev.take (i + 1)) i)).inst er.dst
+      (some target) sched = .ok res)
+    (hroute : res.route = some spurPath)
+    (hre : reorient c.fwd (prev.take (i + 1)) spurPath.reverse = .ok spurRoute)
+    (hloop : routeContainsLoop c.fwd (prev.take (i + 1) ++ spurRoute) = .ok false)
+    (hperm : routePermitted c.fwd (prev.take (i + 1) ++ spurRoute) (initialState c.fwd.feats) none = true)
+    (hdis : yenDissimilar sim (prev.take (i + 1) ++ spurRoute) accepted = .ok true) :
+    YenAlt c sim source target accepted (prev.take (i + 1) ++ spurRoute) := by
+  have hG := hacc prev hprev
+  -- the previous route splits into the root path and a rest of at least two edges
+  have hsplit : prev = prev.take (i + 1) ++ prev.drop (i + 1) := (List.take_append_drop _ _).symm
+  have hdroplen : (prev.drop (i + 1)).length = prev.length - (i + 1) := List.length_drop
+  obtain ⟨x, xs, hrest⟩ : ∃ x xs, prev.drop (i + 1) = x :: xs := by
+    cases hd : prev.drop (i + 1) with
+    | nil => rw [hd] at hdroplen; simp at hdroplen; omega
+    | cons x xs => exact ⟨x, xs, rfl⟩
+  have hxmem : x ∈ prev := by
+    have : x ∈ prev.drop (i + 1) := by rw [hrest]; exact List.mem_cons_self
+    exact List.mem_of_mem_drop this
+  have hw := hG.walk
+  rw [hsplit, List.map_append] at hw
+  obtain ⟨w, hw1, hw2⟩ := GWalk.split hw
+  have hlast' : ((prev.take (i + 1)).map (·.edge)).getLast? = some spurEt.edge := by
+    rw [List.getLast?_map, hlast]; rfl
+  have hwdst : w = er.dst := GWalk.last_dst hw1 spurEt.edge er hlast' her
+  rw [hrest, List.map_cons] at hw2
+  obtain ⟨er2, he2, hs2⟩ := GWalk.head_src hw2
+  have hwt : er.dst ≠ target := by
+    rw [← hwdst, ← hs2]
+    exact hG.src_ne x hxmem er2 he2
+  -- the spur search
+  set cut := yenCut accepted (prev.take (i + 1)) i with hcut
+  have hres' : runVertexOriented (cutCfg c cut).fwd.inst er.dst (some target) sched = .ok res := hres
+  obtain ⟨hinv, hedges⟩ := fwd_tree_of_run (cutCfg c cut) (cutCfg_adj c cut hf) (Ne.symm hwt) hres'
+  obtain ⟨hastar, route, hr, hbt⟩ := SearchRoute.runVertexOriented_some hres
+  rw [hroute] at hr; cases hr
+  obtain ⟨hwS, _, hentS⟩ := fwd_backtrack_walk' (c := cutCfg c cut) hinv hedges hbt
+  have hwS' : GWalk c.edges er.dst (spurPath.map (·.edge)) target := hwS
+  have hpath := SearchTree.backtrack_sound hbt
+  have hterm := SearchRoute.pathTo_terminal_ne hinv hpath
+  have hne : spurPath ≠ [] := fun h0 => hwt ((SearchTree.pathTo_nil_iff hpath).1 h0).symm
+  -- the re-traversed spur part
+  have hspec : spurRoute.map (·.edge) = spurPath.map (·.edge) ∧
+      Reaccumulated c.fwd (lastEdge (prev.take (i + 1))) (lastState c.fwd (prev.take (i + 1))) spurRoute := by
+    unfold reorient at hre
+    rw [hlast] at hre
+    simp only at hre
+    obtain ⟨h1, h2⟩ := retraverse_spec c.fwd _ _ _ _ hre
+    refine ⟨by rw [h1, List.reverse_reverse], ?_⟩
+    simpa [lastEdge, lastState, hlast] using h2
+  have hsrcS : ∀ b ∈ spurPath, ∀ er', c.edges[b.edge]? = some er' → er'.src ≠ target := by
+    intro b hb er' her'
+    obtain ⟨u, hu⟩ := hentS b hb
+    obtain ⟨_, htv, _⟩ := hinv.entry u b hu
+    have : (cutCfg c cut).fwd.inst.termV b.edge = er'.src := (fwd_termV (cutCfg c cut) her').1
+    rw [← this, htv]
+    exact hterm b hb
+  refine ⟨⟨?_, ?_⟩, hloop, (routePermitted_iff c.fwd _ _ _).1 hperm,
+    (yenDissimilar_true_iff sim _ accepted).1 hdis, ?_, ⟨prev, hprev, i, spurRoute, rfl, hspec.2⟩⟩
+  · rw [List.map_append, hspec.1]
+    exact GWalk.append hw1 (hwdst ▸ hwS')
+  · intro b hb er' her'
+    rcases List.mem_append.1 hb with hb | hb
+    · exact hG.src_ne b (List.mem_of_mem_take hb) er' her'
+    · have : b.edge ∈ spurPath.map (·.edge) := by
+        rw [← hspec.1]; exact List.mem_map.2 ⟨b, hb, rfl⟩
+      obtain ⟨b', hb', hbe⟩ := List.mem_map.1 this
+      exact hsrcS b' hb' er' (by rw [hbe]; exact her')
+  · -- a route with the same edge sequence would have had its next edge cut
+    intro a ha heq
+    obtain ⟨y, ys, hy⟩ : ∃ y ys, spurPath = y :: ys := by
+      cases hsp : spurPath with
+      | nil => exact absurd hsp hne
+      | cons y ys => exact ⟨y, ys, rfl⟩
+    have hrootlen : (prev.take (i + 1)).length = i + 1 := by
+      rw [List.length_take]; omega
+    have hids : a.map (·.edge) = (prev.take (i + 1)).map (·.edge) ++ (y.edge :: ys.map (·.edge)) := by
+      rw [heq, List.map_append, hspec.1, hy]; rfl
+    have htake : (a.take (i + 1)).map (·.edge) = (prev.take (i + 1)).map (·.edge) := by
+      have h1 : (a.map (·.edge)).take (i + 1) = (prev.take (i + 1)).map (·.edge) := by
+        rw [hids]; exact List.take_left' (by simp only [List.length_map]; exact hrootlen)
+      rw [List.map_take]; exact h1
+    have hget : a[i + 1]?.map (·.edge) = some y.edge := by
+      have : (a.map (·.edge))[i + 1]? = some y.edge := by
+        have hl : ((prev.take (i + 1)).map (·.edge)).length = i + 1 := by
+          simp only [List.length_map]; exact hrootlen
+        rw [hids, List.getElem?_append_right (by omega), hl]
+        simp
+      rw [List.getElem?_map] at this
+      exact this
+    have hincut : y.edge ∈ cut := by
+      rw [hcut]
+      unfold yenCut
+      refine List.mem_filterMap.2 ⟨a, ha, ?_⟩
+      have : sameIds (prev.take (i + 1)) (a.take (i + 1)) = true :=
+        (sameIds_iff _ _).2 htake.symm
+      rw [if_pos this]
+      exact hget
+    obtain ⟨u, hu⟩ := hentS y (by rw [hy]; exact List.mem_cons_self)
+    obtain ⟨st0, le0, hv, _⟩ := SearchRoute.runAStar_validInv _ _ _ _ _ hastar u y hu
+    exact not_cut_of_valid c cut hv hincut
+
+/-! #### the spur loop -/
+
+section spurloop
+variable {source : Nat}
+
+/-- the best candidate stays a proper alternative through a spur turn -/
+theorem yenSpur_best (hf : c.fwd.AdjConsistent) {prev : List (Branch α)}
+    {accepted : List (List (Branch α))} (hacc : ∀ p ∈ accepted, YenGood c source target p)
+    (hprev : prev ∈ accepted) {i : Nat} (hi : i + 2 < prev.length) {st st' : YenState α}
+    (hbest : ∀ bp bc, st.best = some (bp, bc) → YenAlt c sim source target accepted bp)
+    (h : yenSpur c sim target prev accepted st i = .ok st') :
+    ∀ bp bc, st'.best = some (bp, bc) → YenAlt c sim source target accepted bp := by
+  obtain ⟨_, _, hcase⟩ := yenSpur_ok h
+  rcases hcase with hsame | ⟨spurEt, er, res, spurPath, spurRoute, h1, h2, h3, h4, h5, h6, h7, h8, h9⟩
+  · rw [hsame]; exact hbest
+  · have halt := spur_candidate (sim := sim) hf hacc hprev hi h1 h2 h3 h4 h5 h6 h7 h8
+    intro bp bc hb
+    rw [h9] at hb
+    rcases yenBetter_cases st.best (prev.take (i + 1) ++ spurRoute)
+      (candCost (prev.take (i + 1) ++ spurRoute)) with ⟨x, hx⟩ | ⟨hx, _⟩
+    · rw [hx] at hb
+      simp only [Option.some.injEq, Prod.mk.injEq] at hb
+      rw [← hb.1]; exact halt
+    · rw [hx] at hb; exact hbest bp bc hb
+
+theorem yenFor_best (hf : c.fwd.AdjConsistent) {prev : List (Branch α)}
+    {accepted : List (List (Branch α))} (hacc : ∀ p ∈ accepted, YenGood c source target p)
+    (hprev : prev ∈ accepted) :
+    ∀ (is : List Nat) (st st' : YenState α), (∀ i ∈ is, i + 2 < prev.length) →
+      (∀ bp bc, st.best = some (bp, bc) → YenAlt c sim source target accepted bp) →
+      yenFor c sim target prev accepted is st = .ok st' →
+      ∀ bp bc, st'.best = some (bp, bc) → YenAlt c sim source target accepted bp
+  | [], st, st', _, hbest, h => by cases h; exact hbest
+  | i :: is, st, st', his, hbest, h => by
     unfold yenFor at h
     split at h
     · cases h
     · rename_i st1 h1
-      obtain ⟨e1, he1⟩ := yenSpur_accepted h1
-      obtain ⟨e2, he2⟩ := yenFor_accepted h
-      exact ⟨e1 ++ e2, by rw [he2, he1, List.append_assoc]⟩
+      exact yenFor_best hf hacc hprev is st1 st'
+        (fun j hj => his j (List.mem_cons_of_mem _ hj))
+        (yenSpur_best hf hacc hprev (his i List.mem_cons_self) hbest h1) h
 
-/-- whatever Yen's loop returns starts with the routes it was entered with -/
-theorem yenWhile_accepted {tree : Nat → Option (Branch α)} :
-    ∀ (fuel : Nat) (st : YenState α) (r : AlgResult α),
-      yenWhile cf sim term target k tree fuel st = .ok r →
-      ∃ ext, r.routes = st.accepted ++ ext
-  | 0, st, r, h => by cases h
-  | fuel + 1, st, r, h => by
+/-- **which failures a spur turn propagates**: only a spur search stopped by a limit (or a panic)
+and an error of the similarity function — never "no path", never an error of the re-traversal, the
+loop test or the frontier validation -/
+theorem yenSpur_error (hf : c.fwd.AdjConsistent) {prev : List (Branch α)}
+    {accepted : List (List (Branch α))} (hacc : ∀ p ∈ accepted, YenGood c source target p)
+    (hprev : prev ∈ accepted) {i : Nat} (hi : i + 2 < prev.length) {st : YenState α} {e : ErrKind}
+    (h : yenSpur c sim target prev accepted st i = .error e) :
+    (∃ cut v sched, runVertexOriented (cutCfg c cut).inst v (some target) sched = .error e ∧
+      e.stopsQuery = true) ∨ (∃ a b, sim a b = .error e) := by
+  have hG := hacc prev hprev
+  have hlen : (prev.take (i + 1)).length = i + 1 := by rw [List.length_take]; omega
+  have hrootex : ∀ b ∈ prev.take (i + 1), ∃ er, c.fwd.edges[b.edge]? = some er := by
+    intro b hb
+    exact GWalk.edges_exist hG.walk b.edge (List.mem_map.2 ⟨b, List.mem_of_mem_take hb, rfl⟩)
+  unfold yenSpur at h
+  simp only at h
+  split at h
+  · rename_i hnone
+    rw [List.getLast?_eq_none_iff] at hnone
+    rw [hnone] at hlen; simp at hlen
+  · rename_i spurEt hlast
+    have hmem : spurEt ∈ prev.take (i + 1) := List.mem_of_getLast? hlast
+    split at h
+    · rename_i hnone
+      obtain ⟨er, her⟩ := hrootex spurEt hmem
+      have her' : c.edges[spurEt.edge]? = some er := her
+      rw [her'] at hnone; cases hnone
+    · rename_i er her
+      split at h
+      · rename_i k hk
+        split at h
+        · rename_i hstop
+          cases h
+          exact Or.inl ⟨_, _, _, hk, hstop⟩
+        · cases h
+      · rename_i res hres
+        split at h
+        · rename_i hnone
+          obtain ⟨_, route, hr, _⟩ := SearchRoute.runVertexOriented_some hres
+          rw [hr] at hnone; cases hnone
+        · rename_i spurPath hroute
+          split at h
+          · cases h
+          · rename_i spurRoute hre
+            -- the loop test cannot fail: every edge of the candidate is in the edge list
+            have hex : ∀ b ∈ prev.take (i + 1) ++ spurRoute, ∃ er, c.fwd.edges[b.edge]? = some er := by
+              intro b hb
+              rcases List.mem_append.1 hb with hb | hb
+              · exact hrootex b hb
+              · unfold reorient at hre
+                rw [hlast] at hre
+                simp only at hre
+                exact (retraverse_spec c.fwd _ _ _ _ hre).2.edges_exist b hb
+            obtain ⟨vs, hvs⟩ := srcVertices_total c.fwd _ hex
+            have hl : routeContainsLoop c.fwd (prev.take (i + 1) ++ spurRoute) = .ok (hasDup vs) := by
+              simp [routeContainsLoop, hvs]
+            rw [hl] at h
+            cases hd : hasDup vs with
+            | true => rw [hd] at h; cases h
+            | false =>
+              rw [hd] at h
+              simp only at h
+              split at h
+              · cases h
+              · split at h
+                · rename_i k hk
+                  cases h
+                  exact Or.inr (yenDissimilar_error hk)
+                · cases h
+                · cases h
+
+theorem yenFor_error (hf : c.fwd.AdjConsistent) {prev : List (Branch α)}
+    {accepted : List (List (Branch α))} (hacc : ∀ p ∈ accepted, YenGood c source target p)
+    (hprev : prev ∈ accepted) {e : ErrKind} :
+    ∀ (is : List Nat) (st : YenState α), (∀ i ∈ is, i + 2 < prev.length) →
+      yenFor c sim target prev accepted is st = .error e →
+      (∃ cut v sched, runVertexOriented (cutCfg c cut).inst v (some target) sched = .error e ∧
+        e.stopsQuery = true) ∨ (∃ a b, sim a b = .error e)
+  | [], st, _, h => by cases h
+  | i :: is, st, his, h => by
+    unfold yenFor at h
+    split at h
+    · rename_i k hk
+      cases h
+      exact yenSpur_error hf hacc hprev (his i List.mem_cons_self) hk
+    · exact yenFor_error hf hacc hprev is _ (fun j hj => his j (List.mem_cons_of_mem _ hj)) h
+
+end spurloop
+
+/-! #### the `while` loop -/
+
+section whileloop
+variable {source : Nat}
+
+/-- the accepted list: the underlying search's route, then proper alternatives, each relative to
+the routes accepted before it -/
+inductive YenAcc (c : Config α) (sim : List Nat → List Nat → Except ErrKind Bool)
+    (source target : Nat) (first : List (Branch α)) : List (List (Branch α)) → Prop
+  | base : YenGood c source target first → YenAcc c sim source target first [first]
+  | snoc {acc : List (List (Branch α))} {bp : List (Branch α)} :
+      YenAcc c sim source target first acc → YenAlt c sim source target acc bp →
+      YenAcc c sim source target first (acc ++ [bp])
+
+variable {first : List (Branch α)}
+
+theorem YenAcc.good {acc : List (List (Branch α))} (h : YenAcc c sim source target first acc) :
+    ∀ p ∈ acc, YenGood c source target p := by
+  induction h with
+  | base hg => intro p hp; simp only [List.mem_singleton] at hp; subst hp; exact hg
+  | snoc _ halt ih =>
+    intro p hp
+    rcases List.mem_append.1 hp with hp | hp
+    · exact ih p hp
+    · simp only [List.mem_singleton] at hp; subst hp; exact halt.good
+
+theorem YenAcc.ne_nil {acc : List (List (Branch α))} (h : YenAcc c sim source target first acc) :
+    acc ≠ [] := by
+  cases h <;> simp
+
+theorem YenAcc.head {acc : List (List (Branch α))} (h : YenAcc c sim source target first acc) :
+    acc.head? = some first := by
+  induction h with
+  | base _ => rfl
+  | @snoc acc bp _ _ ih =>
+    cases acc with
+    | nil => simp at ih
+    | cons a r => simpa using ih
+
+/-- pairwise: later routes differ in edge sequence from, and are dissimilar to, earlier ones -/
+theorem YenAcc.pairwise {acc : List (List (Branch α))} (h : YenAcc c sim source target first acc) :
+    acc.Pairwise (fun earlier later =>
+      earlier.map (·.edge) ≠ later.map (·.edge) ∧
+      sim (earlier.map (·.edge)) (later.map (·.edge)) = .ok false) := by
+  induction h with
+  | base _ => exact List.pairwise_singleton _ _
+  | snoc _ halt ih =>
+    rw [List.pairwise_append]
+    refine ⟨ih, List.pairwise_singleton _ _, ?_⟩
+    intro a ha b hb
+    simp only [List.mem_singleton] at hb
+    subst hb
+    exact ⟨halt.fresh a ha, halt.dissimilar a ha⟩
+
+/-- every route after the first is a proper alternative of a prefix of the list -/
+theorem YenAcc.tail_alt {acc : List (List (Branch α))} (h : YenAcc c sim source target first acc) :
+    ∀ p ∈ acc.tail, ∃ before, before <+: acc ∧ YenAlt c sim source target before p := by
+  induction h with
+  | base _ => intro p hp; simp at hp
+  | @snoc acc bp hacc halt ih =>
+    intro p hp
+    have hne := hacc.ne_nil
+    cases acc with
+    | nil => exact absurd rfl hne
+    | cons a r =>
+      simp only [List.cons_append, List.tail_cons] at hp
+      rcases List.mem_append.1 hp with hp | hp
+      · obtain ⟨before, hb1, hb2⟩ := ih p (by simpa using hp)
+        exact ⟨before, hb1.trans (List.prefix_append _ _), hb2⟩
+      · simp only [List.mem_singleton] at hp
+        subst hp
+        exact ⟨a :: r, List.prefix_append _ _, halt⟩
+
+variable {term : KspTerm} {k : Nat} {tree : Nat → Option (Branch α)}
+
+/-- **what the loop returns**: the first `k` routes of an accepted list that extends the one it was
+entered with -/
+theorem yenWhile_ok (hf : c.fwd.AdjConsistent) :
+    ∀ (fuel : Nat) (acc : List (List (Branch α))) (its : Nat) (scheds : List (List Nat))
+      (r : AlgResult α), YenAcc c sim source target first acc →
+      yenWhile c sim term target k tree fuel acc its scheds = .ok r →
+      ∃ acc', YenAcc c sim source target first acc' ∧ acc <+: acc' ∧
+        r.routes = acc'.take k ∧ r.trees = [tree]
+  | 0, _, _, _, _, _, h => by cases h
+  | fuel + 1, acc, its, scheds, r, hacc, h => by
     unfold yenWhile at h
     split at h
     · split at h
-      · cases h; exact ⟨[], by simp⟩
+      · cases h; exact ⟨acc, hacc, List.prefix_refl _, rfl, rfl⟩
       · split at h
         · cases h
-        · simp only at h
+        · rename_i prev hprev
+          have hprevmem : prev ∈ acc := List.mem_of_getLast? hprev
           split at h
-          · split at h <;> cases h
-          · split at h
+          · cases h
+          · rename_i st' hfor
+            have hbest := yenFor_best (sim := sim) hf hacc.good hprevmem
+              (List.range (prev.length - 2)) _ st'
+              (fun i hi => by have := List.mem_range.1 hi; omega)
+              (fun bp bc hb => by cases hb) hfor
+            split at h
+            · rename_i bp bc hb
+              obtain ⟨acc', h1, h2, h3, h4⟩ := yenWhile_ok hf fuel (acc ++ [bp]) _ _ r
+                (YenAcc.snoc hacc (hbest bp bc hb)) h
+              exact ⟨acc', h1, (List.prefix_append _ _).trans h2, h3, h4⟩
+            · cases h; exact ⟨acc, hacc, List.prefix_refl _, rfl, rfl⟩
+    · cases h; exact ⟨acc, hacc, List.prefix_refl _, rfl, rfl⟩
+
+/-- **the loop ends**: every turn that goes on has lengthened the accepted list, so it never needs
+more turns than routes are missing -/
+theorem yenWhile_terminates :
+    ∀ (fuel : Nat) (acc : List (List (Branch α))) (its : Nat) (scheds : List (List Nat)),
+      k - acc.length < fuel →
+      ∀ why, yenWhile c sim term target k tree fuel acc its scheds ≠ .diverges why
+  | 0, _, _, _, h, _ => by omega
+  | fuel + 1, acc, its, scheds, hfuel, why => by
+    unfold yenWhile
+    split
+    · rename_i hlt
+      split
+      · exact fun h => by cases h
+      · split
+        · exact fun h => by cases h
+        · split
+          · exact fun h => by cases h
+          · split
+            · apply yenWhile_terminates fuel
+              simp only [List.length_append, List.length_singleton]
+              omega
+            · exact fun h => by cases h
+    · exact fun h => by cases h
+
+/-- **which failures the loop propagates** -/
+theorem yenWhile_error (hf : c.fwd.AdjConsistent) :
+    ∀ (fuel : Nat) (acc : List (List (Branch α))) (its : Nat) (scheds : List (List Nat))
+      (e : ErrKind), YenAcc c sim source target first acc →
+      yenWhile c sim term target k tree fuel acc its scheds = .err e →
+      (∃ cut v sched, runVertexOriented (cutCfg c cut).inst v (some target) sched = .error e ∧
+        e.stopsQuery = true) ∨ (∃ a b, sim a b = .error e)
+  | 0, _, _, _, _, _, h => by cases h
+  | fuel + 1, acc, its, scheds, e, hacc, h => by
+    unfold yenWhile at h
+    split at h
+    · split at h
+      · cases h
+      · split at h
+        · rename_i hnone
+          rw [List.getLast?_eq_none_iff] at hnone
+          exact absurd hnone hacc.ne_nil
+        · rename_i prev hprev
+          have hprevmem : prev ∈ acc := List.mem_of_getLast? hprev
+          split at h
+          · rename_i e' hfor
+            cases h
+            exact yenFor_error (sim := sim) hf hacc.good hprevmem _ _
+              (fun i hi => by have := List.mem_range.1 hi; omega) hfor
+          · rename_i st' hfor
+            have hbest := yenFor_best (sim := sim) hf hacc.good hprevmem
+              (List.range (prev.length - 2)) _ st'
+              (fun i hi => by have := List.mem_range.1 hi; omega)
+              (fun bp bc hb => by cases hb) hfor
+            split at h
+            · rename_i bp bc hb
+              exact yenWhile_error hf fuel (acc ++ [bp]) _ _ e
+                (YenAcc.snoc hacc (hbest bp bc hb)) h
             · cases h
-            · rename_i st' hfor
-              split at h
-              · cases h
-              · obtain ⟨e1, he1⟩ := yenFor_accepted hfor
-                obtain ⟨e2, he2⟩ := yenWhile_accepted fuel st' r h
-                exact ⟨e1 ++ e2, by rw [he2, he1]; simp⟩
-    · cases h; exact ⟨[], by simp⟩
+    · cases h
 
-end yen
+end whileloop
 
-/-- **Yen, first route**: a returned result starts with the route of the underlying search (and so
-holds at least one route) -/
-theorem yens_first_route {c : Config α} {sim : List Nat → List Nat → Except ErrKind Bool}
-    {term : KspTerm} {source target k : Nat} {scheds : List (List Nat)} {r : AlgResult α}
+/-! #### `yens` -/
+
+/-- the route of the underlying search is a `YenGood` route -/
+theorem first_route_good {c : Config α} (hf : c.fwd.AdjConsistent) {source target : Nat}
+    {sched : List Nat} {res : SearchResult α} {first : List (Branch α)}
+    (hrun : runVertexOriented c.fwd.inst source (some target) sched = .ok res)
+    (hfirst : res.route = some first) : YenGood c source target first := by
+  obtain ⟨_, route, hr, hbt⟩ := SearchRoute.runVertexOriented_some hrun
+  rw [hfirst] at hr; cases hr
+  by_cases hts : target = source
+  · subst hts
+    have hp := SearchTree.backtrack_sound hbt
+    have : first = [] := (SearchTree.pathTo_nil_iff hp).2 rfl
+    subst this
+    exact ⟨rfl, fun b hb => by simp at hb⟩
+  · obtain ⟨hinv, hedges⟩ := fwd_tree_of_run c hf hts hrun
+    obtain ⟨hw, _, hent⟩ := fwd_backtrack_walk' hinv hedges hbt
+    have hterm := SearchRoute.pathTo_terminal_ne hinv (SearchTree.backtrack_sound hbt)
+    refine ⟨hw, ?_⟩
+    intro b hb er her
+    obtain ⟨u, hu⟩ := hent b hb
+    obtain ⟨_, htv, _⟩ := hinv.entry u b hu
+    rw [← (fwd_termV c her).1, htv]
+    exact hterm b hb
+
+/-- `yens`, inverted: a returned result is the first `k` routes of an accepted list -/
+theorem yens_ok {c : Config α} (hf : c.fwd.AdjConsistent)
+    {sim : List Nat → List Nat → Except ErrKind Bool} {term : KspTerm} {source target k : Nat}
+    {scheds : List (List Nat)} {r : AlgResult α}
     (h : yens c sim term source target k scheds = .ok r) :
-    ∃ fres first, runVertexOriented c.fwd.inst source (some target) (scheds.headD []) = .ok fres ∧
-      fres.route = some first ∧ r.routes.head? = some first := by
+    ∃ fres first acc, runVertexOriented c.fwd.inst source (some target) (scheds.headD []) = .ok fres ∧
+      fres.route = some first ∧ YenAcc c sim source target first acc ∧
+      r.routes = acc.take k ∧ r.trees = [fres.final.sol] := by
   unfold yens at h
-  simp only at h
   split at h
   · cases h
   · rename_i fres hfres
     split at h
-    · rename_i hroute
-      -- `run_vertex_oriented` with a destination always returns a route
+    · rename_i hnone
       obtain ⟨_, route, hr, _⟩ := SearchRoute.runVertexOriented_some hfres
-      rw [hr] at hroute; cases hroute
+      rw [hr] at hnone; cases hnone
     · rename_i first hfirst
-      obtain ⟨ext, hext⟩ := yenWhile_accepted _ _ _ h
-      exact ⟨fres, first, hfres, hfirst, by rw [hext]; rfl⟩
+      obtain ⟨acc, h1, _, h3, h4⟩ := yenWhile_ok hf _ _ _ _ r
+        (YenAcc.base (first_route_good hf hfres hfirst)) h
+      exact ⟨fres, first, acc, hfres, hfirst, h1, h3, h4⟩
 
-/-- **Yen, k ≤ 1**: exactly the underlying search's route, its tree, one iteration — for every
-network, similarity and criterion.  (For k = 0 that is one route more than asked for.) -/
-theorem yens_k_le_one {c : Config α} {sim : List Nat → List Nat → Except ErrKind Bool}
-    {term : KspTerm} {source target k : Nat} (hk : k ≤ 1) {scheds : List (List Nat)}
-    {fres : SearchResult α} {first : List (Branch α)}
-    (hrun : runVertexOriented c.fwd.inst source (some target) (scheds.headD []) = .ok fres)
-    (hfirst : fres.route = some first) :
-    yens c sim term source target k scheds =
-      .ok { trees := [fres.final.sol], routes := [first], iterations := 1 } := by
-  unfold yens
-  simp only [hrun, hfirst]
-  unfold yenWhile
-  have : ¬ (1 < k) := by omega
-  simp [this]
-
-/-- **Yen, shortest route of exactly two edges, k ≥ 2: the code does not return** — for every
-network, similarity function and termination criterion: `0..len - 2` is empty, nothing is pushed,
-and `while accepted.len() < k` starts every turn from the same state -/
-theorem yens_two_edge_route_diverges {c : Config α}
-    {sim : List Nat → List Nat → Except ErrKind Bool} {term : KspTerm} {source target k : Nat}
-    (hk : 2 ≤ k) {scheds : List (List Nat)} {fres : SearchResult α} {b1 b2 : Branch α}
-    (hrun : runVertexOriented c.fwd.inst source (some target) (scheds.headD []) = .ok fres)
-    (hfirst : fres.route = some [b1, b2]) :
-    yens c sim term source target k scheds = .diverges "no-progress" := by
-  unfold yens
-  simp only [hrun, hfirst]
-  unfold yenWhile
-  have h1 : (1 : Nat) < k := by omega
-  have hterm : term.terminate k 1 = false := by
-    cases hT : term.terminate k 1
-    · rfl
-    · have := terminate_length hT; omega
-  simp [h1, hterm, yenFor]
-
-/-- **Yen, shortest route of one edge, k ≥ 2: the code does not return** whenever the similarity
-function itself does not fail: `len - 2` wraps to about 2^64 turns, each of which searches from the
-destination to itself (an immediate empty result) and — under `AcceptAll` — pushes another copy of
-the route.  (Here: the first four turns succeed; none of the later ones differs from them.) -/
-theorem yens_one_edge_route_diverges {c : Config α}
-    {sim : List Nat → List Nat → Except ErrKind Bool} {term : KspTerm} {source target k : Nat}
-    (hk : 2 ≤ k) (hsim : ∀ a b, ∃ r, sim a b = .ok r) {scheds : List (List Nat)}
-    {fres : SearchResult α} {b : Branch α} {er : EdgeRec α}
-    (hrun : runVertexOriented c.fwd.inst source (some target) (scheds.headD []) = .ok fres)
-    (hfirst : fres.route = some [b]) (hedge : c.edges[b.edge]? = some er) (hdst : er.dst = target) :
-    yens c sim term source target k scheds = .diverges "underflow" := by
-  -- one spur turn from any state whose previous route is `[b]` succeeds
-  have hscan : ∀ (cand : List (Branch α)) (cost : α) (acc : List (List (Branch α)))
-      (best : Option (List (Branch α) × α)), ∃ best', yenScan sim cand cost acc best = .ok best' := by
-    intro cand cost acc
-    induction acc with
-    | nil => intro best; exact ⟨best, rfl⟩
-    | cons t rest ih =>
-      intro best
-      obtain ⟨r, hr⟩ := hsim (t.map (·.edge)) (cand.map (·.edge))
-      unfold yenScan
-      rw [hr]
-      cases r with
-      | true => simpa using ih best
-      | false =>
-        cases best with
-        | none => simpa using ih _
-        | some p =>
-          obtain ⟨bp, bc⟩ := p
-          simp only [Bool.false_eq_true, if_false]
-          split
-          · exact ih _
-          · exact ih _
-  have hspur : ∀ (st : YenState α) (i : Nat), ∃ st', yenSpur c.fwd sim target [b] st i = .ok st' := by
-    intro st i
-    unfold yenSpur
-    have hroot : ([b].take (i + 1)).getLast? = some b := by simp
-    have hedge' : c.fwd.edges[b.edge]? = some er := hedge
-    simp only [hroot, hedge', hdst]
-    obtain ⟨res, hres, hroute, _⟩ := SearchTree.runVertexOriented_source
-      ({ c.fwd with frontier := FrontierM.edgeCut (st.accepted.filterMap (fun p =>
-          if sameIds ([b].take (i + 1)) (p.take (i + 1)) then p[i + 1]?.map (·.edge) else none))
-          :: c.fwd.frontier } : Config α).inst target
-      (st.scheds.headD [])
-    rw [hres]
-    simp only [hroute]
-    obtain ⟨best', hb⟩ := hscan ([b].take (i + 1) ++ [])
-      (sumList (([b].take (i + 1) ++ []).map (fun (x : Branch α) => x.access + x.traversal)))
-      st.accepted st.best
-    rw [hb]
-    exact ⟨_, rfl⟩
-  have hfor : ∀ (is : List Nat) (st : YenState α), ∃ st', yenFor c.fwd sim target [b] is st = .ok st' := by
-    intro is
-    induction is with
-    | nil => intro st; exact ⟨st, rfl⟩
-    | cons i is ih =>
-      intro st
-      obtain ⟨st1, h1⟩ := hspur st i
-      obtain ⟨st2, h2⟩ := ih st1
-      exact ⟨st2, by unfold yenFor; rw [h1]; exact h2⟩
-  unfold yens
-  simp only [hrun, hfirst]
-  unfold yenWhile
-  have h1 : (1 : Nat) < k := by omega
-  have hterm : term.terminate k 1 = false := by
-    cases hT : term.terminate k 1
-    · rfl
-    · have := terminate_length hT; omega
-  obtain ⟨st', hst'⟩ := hfor [0, 1, 2, 3]
-    { accepted := [[b]], best := none, iterations := 1, scheds := scheds.tail }
-  simp [h1, hterm, hst']
+end yen
 
 /-! ### concrete configurations over ℚ (non-vacuity and witnesses) -/
 
@@ -1670,7 +2127,7 @@ inductive Obs where
   | routes (ids : List (List Nat))
   | err (e : ErrKind)
   | diverges (why : String)
-  deriving DecidableEq
+  deriving DecidableEq, Repr
 
 def obsOf : KspOutcome ℚ → Obs
   | .ok r => .routes (r.routes.map (·.map (·.edge)))
@@ -1724,77 +2181,86 @@ def fan : Config ℚ :=
 /-- `0 ⇄ 1` -/
 def pair : Config ℚ := mk 2 [⟨0, 1, 1⟩, ⟨1, 0, 1⟩] [[0], [1]] [] []
 
-theorem yen_one_edge : obsOf (yens oneEdge simAcceptAll .exact 0 1 2 [[0, 1]]) = .diverges "underflow" := by
-  decide +kernel
-
-theorem yen_two_edge : obsOf (yens diamond simAcceptAll .exact 0 3 2 [[0, 1, 3]]) = .diverges "no-progress" := by
-  decide +kernel
-
-theorem yen_k0 : obsOf (yens diamond simAcceptAll .exact 0 3 0 [[0, 1, 3]]) = .routes [[0, 1]] := by
-  decide +kernel
-
-theorem yen_origin_is_destination :
-    idsOf (pair.runVertex 0 (some 0) []) = .ok [[]] ∧
-    obsOf (yens pair simAcceptAll .exact 0 0 2 [[]]) = .err .internal := by
-  decide +kernel
-
-theorem yen_spur_failure :
-    idsOf (line3.runVertex 0 (some 3) [0, 1, 2, 3]) = .ok [[0, 1, 2]] ∧
-    obsOf (yens line3 simAcceptAll .exact 0 3 2 [[0, 1, 2, 3], [1]]) = .err .noPath := by
-  decide +kernel
-
-theorem yen_state_not_accumulated :
-    obsOf (yens (alt3 []) simAcceptAll .exact 0 3 2 [[0, 1, 2, 4, 3], [1, 4, 3]]) =
-      .routes [[0, 1, 2], [0, 3, 4]] ∧
-    statesOf (yens (alt3 []) simAcceptAll .exact 0 3 2 [[0, 1, 2, 4, 3], [1, 4, 3]]) =
-      [[[1], [2], [3]], [[1], [2], [4]]] := by
-  decide +kernel
-
-theorem yen_duplicate :
-    obsOf (yens (twoSpurs 2 3) simAcceptAll .exact 0 4 2 [[0, 1, 2, 5, 3, 4], [1, 5, 4], [2, 6, 4]]) =
-      .routes [[0, 1, 2, 3], [0, 4, 5], [0, 4, 5]] := by
-  decide +kernel
-
-theorem yen_more_than_k :
-    obsOf (yens (twoSpurs 3 (3 / 2)) simAcceptAll .exact 0 4 2
-      [[0, 1, 2, 3, 6, 4], [1, 5, 4], [2, 6, 4]]) =
-      .routes [[0, 1, 2, 3], [0, 4, 5], [0, 1, 6, 7]] := by
-  decide +kernel
-
-theorem yen_loop :
-    obsOf (yens loopy simAcceptAll .exact 0 3 2 [[0, 1, 4, 2, 3], [1, 0, 4, 3]]) =
-      .routes [[0, 1, 2], [0, 3, 4, 5]] := by
-  decide +kernel
-
-theorem yen_similar :
-    obsOf (yens fan (shareAtLeast 2) .exact 0 9 3
-      [[0, 1, 2, 3, 6, 5, 4, 9], [1, 3, 6, 5, 4, 9], [1, 5, 9], [3, 4, 9]]) =
-      .routes [[0, 1, 2], [0, 3, 8, 9], [0, 6, 7], [0, 3, 4, 5]] := by
-  decide +kernel
-
-theorem yen_restricted_turn :
-    obsOf (yens (alt3 [.turnRestriction [(0, 3)]]) simAcceptAll .exact 0 3 2
-      [[0, 1, 2, 3], [1, 4, 3]]) = .routes [[0, 1, 2], [0, 3, 4]] := by
-  decide +kernel
-
-theorem yen_no_dissimilar_candidate :
-    obsOf (yens (alt3 []) (shareAtLeast 1) .exact 0 3 2 [[0, 1, 2, 4, 3], [1, 4, 3]]) =
-      .diverges "no-progress" := by
-  decide +kernel
-
 /-- `0 → 1 → 2 → 3` and the long direct edge `1 -e3→ 3` -/
 def shortcut : Config ℚ :=
   mk 4 [⟨0, 1, 1⟩, ⟨1, 2, 1⟩, ⟨2, 3, 1⟩, ⟨1, 3, 5⟩] [[0], [1, 3], [2], []] [] []
 
-theorem yen_later_short_route :
-    obsOf (yens shortcut simAcceptAll .exact 0 3 2 [[0, 1, 2, 3], [1, 3]]) = .routes [[0, 1, 2], [0, 3]] ∧
-    obsOf (yens shortcut simAcceptAll .exact 0 3 3 [[0, 1, 2, 3], [1, 3]]) = .diverges "no-progress" := by
+
+/-! the old witnesses of Yen's defects, on the repaired algorithm -/
+
+theorem yen_one_edge :
+    obsOf (yens oneEdge simAcceptAll .exact 0 1 2 [[0, 1]]) = .routes [[0]] ∧
+    obsOf (yens oneEdge (shareAtLeast 1) .exact 0 1 2 [[0, 1]]) = .routes [[0]] := by
   decide +kernel
 
-/-- k = 1 on the diamond: the shortest route, for the non-vacuity of the partial results -/
+theorem yen_two_edge : obsOf (yens diamond simAcceptAll .exact 0 3 2 [[0, 1, 3]]) = .routes [[0, 1]] := by
+  decide +kernel
+
+theorem yen_k0 : obsOf (yens diamond simAcceptAll .exact 0 3 0 [[0, 1, 3]]) = .routes [] := by
+  decide +kernel
+
 theorem yen_k1 : obsOf (yens diamond simAcceptAll .exact 0 3 1 [[0, 1, 3]]) = .routes [[0, 1]] := by
   decide +kernel
 
+theorem yen_origin_is_destination :
+    obsOf (yens pair simAcceptAll .exact 0 0 2 [[]]) = .routes [[]] := by
+  decide +kernel
+
+theorem yen_spur_failure :
+    idsOf (line3.runVertex 0 (some 3) [0, 1, 2, 3]) = .ok [[0, 1, 2]] ∧
+    obsOf (yens line3 simAcceptAll .exact 0 3 2 [[0, 1, 2, 3], [1, 3]]) = .routes [[0, 1, 2]] := by
+  decide +kernel
+
+theorem yen_state_accumulated :
+    obsOf (yens (alt3 []) simAcceptAll .exact 0 3 2 [[0, 1, 2, 4, 3], [1, 4, 3]]) =
+      .routes [[0, 1, 2], [0, 3, 4]] ∧
+    statesOf (yens (alt3 []) simAcceptAll .exact 0 3 2 [[0, 1, 2, 4, 3], [1, 4, 3]]) =
+      [[[1], [2], [3]], [[1], [3], [5]]] := by
+  decide +kernel
+
+theorem yen_no_duplicate :
+    obsOf (yens (twoSpurs 2 3) simAcceptAll .exact 0 4 2 [[0, 1, 2, 5, 3, 4], [1, 5, 4], [2, 6, 4]]) =
+      .routes [[0, 1, 2, 3], [0, 4, 5]] := by
+  decide +kernel
+
+theorem yen_at_most_k :
+    obsOf (yens (twoSpurs 3 (3 / 2)) simAcceptAll .exact 0 4 2
+      [[0, 1, 2, 3, 6, 4], [1, 5, 4], [2, 6, 4]]) = .routes [[0, 1, 2, 3], [0, 1, 6, 7]] ∧
+    obsOf (yens (twoSpurs 3 (3 / 2)) simAcceptAll .exact 0 4 3
+      [[0, 1, 2, 3, 6, 4], [1, 5, 4], [2, 6, 4], [1, 5, 4], [2]]) =
+      .routes [[0, 1, 2, 3], [0, 1, 6, 7], [0, 4, 5]] := by
+  decide +kernel
+
+theorem yen_no_loop :
+    obsOf (yens loopy simAcceptAll .exact 0 3 2 [[0, 1, 4, 2, 3], [1, 0, 4, 3]]) =
+      .routes [[0, 1, 2]] := by
+  decide +kernel
+
+theorem yen_dissimilar :
+    obsOf (yens fan (shareAtLeast 2) .exact 0 9 3
+      [[0, 1, 2, 3, 6, 5, 4, 9], [1, 3, 6, 5, 4, 9], [1, 5, 9], [3, 4, 9]]) =
+      .routes [[0, 1, 2], [0, 3, 8, 9], [0, 6, 7]] := by
+  decide +kernel
+
+theorem yen_restricted_turn :
+    obsOf (yens (alt3 [.turnRestriction [(0, 3)]]) simAcceptAll .exact 0 3 2
+      [[0, 1, 2, 3], [1, 4, 3]]) = .routes [[0, 1, 2]] := by
+  decide +kernel
+
+theorem yen_no_dissimilar_candidate :
+    obsOf (yens (alt3 []) (shareAtLeast 1) .exact 0 3 2 [[0, 1, 2, 4, 3], [1, 4, 3]]) =
+      .routes [[0, 1, 2]] := by
+  decide +kernel
+
+theorem yen_later_short_route :
+    obsOf (yens shortcut simAcceptAll .exact 0 3 3 [[0, 1, 2, 3], [1, 3]]) =
+      .routes [[0, 1, 2], [0, 3]] := by
+  decide +kernel
+
+theorem alt3_adj : (alt3 []).fwd.AdjConsistent := by
+  apply adj_of_lists
+  · decide +kernel
+  · decide
 end Example
 
 end Ksp
